@@ -577,6 +577,21 @@ func (env *Env) call(e *ast.CallExpr) TV {
 				return env.fail("errIs needs error values")
 			}
 			return boolTV(x.errIsAt(env.st, a, b))
+		case "isA":
+			// isA(x, I): the dynamic type of interface value x implements interface I (x.(I) succeeds)
+			a, ok := env.expr(args[0]).V.(VIface)
+			t := env.typeExpr(args[1])
+			if !ok || t == nil || kindOf(t) != KIface {
+				return env.fail("isA(x, I)")
+			}
+			return boolTV(app(SBool, "implements", a.Tag, IntLit(x.implementsFacts(t))))
+		case "tagof":
+			// tagof(T): the type tag of the (concrete) type T
+			t := env.typeExpr(args[0])
+			if t == nil {
+				return env.fail("tagof(T)")
+			}
+			return intTV(IntLit(x.eng.typeTag(t)))
 		case "tagOf":
 			if a, ok := env.expr(args[0]).V.(VIface); ok {
 				return intTV(a.Tag)
